@@ -506,6 +506,8 @@ def run(tier):
     key_usage_masks(chk)
     name_compare_vectors(chk)
     calendar_table(chk)
+    from . import c11 as _c11
+    oblig.run_obligations(chk, _c11.asn1_sig_obligations())
     from .c03 import hash_compare_shape
     hash_compare_shape(chk, S, 'verify_signature', 'x509-signature-hash-compare')
     chk.floor('rule instances', len(chk.obls), 35)
